@@ -12,6 +12,7 @@ func Harness_E_C01() {
 	vhCheckPanics()
 	l := Layout(in.src, in.opts...)
 	vhReach("returned")
+	vhObserveLayout(l)
 	vhAssert(len(l.Nodes) >= in.n, "returned-all-nodes")
 }
 
@@ -21,6 +22,7 @@ func Harness_E_C02() {
 	vhOptions(in, 0)
 	l := Layout(in.src, in.opts...)
 	vhReach("returned")
+	vhObserveLayout(l)
 	// nodes: every input id exactly once, configured size, nothing else (unless VIRT)
 	real := 0
 	for i := 0; i < in.n; i++ {
@@ -77,6 +79,7 @@ func Harness_E_C03() {
 	vhOptions(in, 1)
 	l := Layout(in.src, in.opts...)
 	vhReach("returned")
+	vhObserveLayout(l)
 	comp := vhComp(in)
 	dag := vhInputAcyclic(in)
 	for a := 0; a < in.n; a++ {
@@ -114,6 +117,7 @@ func Harness_E_C04() {
 	vhOptions(in, 0)
 	l := Layout(in.src, in.opts...)
 	vhReach("returned")
+	vhObserveLayout(l)
 	for a := 0; a < in.n; a++ {
 		na := vhNode(l, in.ids[a])
 		vhAssert(na.X >= 0 && na.Y >= 0, "coordinates-non-negative")
@@ -137,6 +141,7 @@ func Harness_E_C05() {
 	vhOptions(in, 1)
 	l := Layout(in.src, in.opts...)
 	vhReach("returned")
+	vhObserveLayout(l)
 	for _, e := range l.Edges {
 		if e.FromID == e.ToID {
 			continue
@@ -174,6 +179,7 @@ func Harness_E_C06() {
 	vhOptions(in, 1)
 	l := Layout(in.src, in.opts...)
 	vhReach("returned")
+	vhObserveLayout(l)
 	nbends := 0
 	for _, e := range l.Edges {
 		if e.FromID == e.ToID {
